@@ -1,6 +1,1103 @@
-//! C10 — not implemented yet.
-use crate::report::{Cfg, Report};
+//! C10 — optimizers follow their published update rules; Levenberg–Marquardt descends (DESIGN §3 C10).
+//!
+//! Events: every `Optimizer::optimize` call (value or panic) of `Adam`, `SGD` and `LM`, together
+//! with the number of steps the call really executed (step hooks).
+//!
+//! Adam / SGD: the internal state is not observable, so the trajectory is reconstructed by calling
+//! `optimize` with `maxsteps = 0, 1, …, K` on one (reused) optimizer object. The result of a call
+//! that executed `j` steps must equal iterate `j` of the reference recurrence written here
+//! (Kingma & Ba Alg. 1 with bias correction; classical momentum; Nesterov with the gradient at
+//! the look-ahead point), whose gradients are hand-derived formulas cross-checked against
+//! `reverse`. The comparison tolerance is self-calibrated: the reference is run a second time with
+//! a perturbation of 4ε injected into every evaluation point, gradient and update;
+//! `tol_k = 1e3·(running max divergence of the two runs) + 1e-13·(1+‖x_k‖∞)`.
+//! A call that executed `j < maxsteps` steps stopped early: then the library's own iterates `j`
+//! and `j−1` must agree to 4 ulp in every coordinate *with the same sign*.
+//!
+//! LM: RSS(returned) ≤ RSS(start) for every step budget 0..200, the least-squares solution is
+//! reached on models linear in the parameters (`LM::new(1e-14, 1e-14, τ)`), covariance =
+//! `RSS/(n−p)·(JᵀJ)⁻¹` with an analytic Jacobian at the returned point.
+use crate::gen::Rng;
+use crate::oracle::dd::Dd;
+use crate::oracle::linref;
+use crate::report::{case_seed, guard, jf, jnum, par_cases, same_bits_slice, Cfg, Hasher, Report};
+use compute::optimize::{Adam, Optimizer, LM, SGD};
+use compute::verif_hooks::{count, Site};
+use reverse::{Gradient, Tape, Var};
+use serde_json::{json, Value};
 
-pub fn run(_cfg: &Cfg, rep: &mut Report) {
-    rep.inconclusive("monitor for C10 not implemented".to_string());
+const EPS: f64 = f64::EPSILON;
+
+// ---------------------------------------------------------------------------------------------
+// objective family: `reverse` expressions and hand-derived gradients
+
+mod obj {
+    use super::*;
+
+    #[derive(Clone, Copy, PartialEq, Debug)]
+    pub enum Kind {
+        Quad,
+        Rosen,
+        LsExp,
+        LsSin,
+        LsRat,
+    }
+
+    pub struct Problem {
+        pub kind: Kind,
+        pub label: &'static str,
+        pub data: Vec<Vec<f64>>,
+        pub dim: usize,
+    }
+
+    /// ½ xᵀA x − bᵀx, A symmetric (d[0], row-major), b = d[1]
+    pub fn f_quad<'a>(p: &[Var<'a>], d: &[&[f64]]) -> Var<'a> {
+        let n = p.len();
+        let (a, b) = (d[0], d[1]);
+        let mut terms: Vec<Var<'a>> = Vec::with_capacity(n * n + n);
+        for i in 0..n {
+            for j in 0..n {
+                if a[i * n + j] != 0.0 {
+                    terms.push(p[i] * p[j] * (0.5 * a[i * n + j]));
+                }
+            }
+            terms.push(p[i] * (-b[i]));
+        }
+        terms.into_iter().sum()
+    }
+    /// chained Rosenbrock Σ (a − x_i)² + b (x_{i+1} − x_i²)², d[0] = [a, b]
+    pub fn f_rosen<'a>(p: &[Var<'a>], d: &[&[f64]]) -> Var<'a> {
+        let (a, b) = (d[0][0], d[0][1]);
+        (0..p.len() - 1).map(|i| (a - p[i]).powi(2) + b * (p[i + 1] - p[i].powi(2)).powi(2)).sum()
+    }
+    /// mean squared error of p0·exp(p1 t) [+ p2]
+    pub fn f_lsexp<'a>(p: &[Var<'a>], d: &[&[f64]]) -> Var<'a> {
+        let (t, y) = (d[0], d[1]);
+        let s: Var<'a> = t
+            .iter()
+            .zip(y)
+            .map(|(&t, &y)| {
+                let m = p[0] * (p[1] * t).exp();
+                let m = if p.len() > 2 { m + p[2] } else { m };
+                (m - y).powi(2)
+            })
+            .sum();
+        s / t.len() as f64
+    }
+    /// mean squared error of p0·sin(p1 t + p2)
+    pub fn f_lssin<'a>(p: &[Var<'a>], d: &[&[f64]]) -> Var<'a> {
+        let (t, y) = (d[0], d[1]);
+        let s: Var<'a> = t.iter().zip(y).map(|(&t, &y)| (p[0] * (p[1] * t + p[2]).sin() - y).powi(2)).sum();
+        s / t.len() as f64
+    }
+    /// mean squared error of (p0 + p1 t) / (1 + (p2 t)²): division and powi nodes
+    pub fn f_lsrat<'a>(p: &[Var<'a>], d: &[&[f64]]) -> Var<'a> {
+        let (t, y) = (d[0], d[1]);
+        let s: Var<'a> = t.iter().zip(y).map(|(&t, &y)| ((p[0] + p[1] * t) / ((p[2] * t).powi(2) + 1.0) - y).powi(2)).sum();
+        s / t.len() as f64
+    }
+
+    impl Problem {
+        pub fn slices(&self) -> Vec<&[f64]> {
+            self.data.iter().map(|v| v.as_slice()).collect()
+        }
+        pub fn call<O: Optimizer<Output = compute::linalg::Vector>>(&self, o: &O, x0: &[f64], k: usize) -> Vec<f64> {
+            let d = self.slices();
+            let v = match self.kind {
+                Kind::Quad => o.optimize(f_quad, x0, &d, k),
+                Kind::Rosen => o.optimize(f_rosen, x0, &d, k),
+                Kind::LsExp => o.optimize(f_lsexp, x0, &d, k),
+                Kind::LsSin => o.optimize(f_lssin, x0, &d, k),
+                Kind::LsRat => o.optimize(f_lsrat, x0, &d, k),
+            };
+            v.v
+        }
+        /// gradient through `reverse` (cross-check of the hand-derived formulas)
+        pub fn ad_grad(&self, x: &[f64]) -> Vec<f64> {
+            let tape = Tape::new();
+            let p = tape.add_vars(x);
+            let d = self.slices();
+            let r = match self.kind {
+                Kind::Quad => f_quad(&p, &d),
+                Kind::Rosen => f_rosen(&p, &d),
+                Kind::LsExp => f_lsexp(&p, &d),
+                Kind::LsSin => f_lssin(&p, &d),
+                Kind::LsRat => f_lsrat(&p, &d),
+            };
+            r.grad().wrt(&p)
+        }
+        /// hand-derived gradient and, per component, the sum of the magnitudes of its terms
+        pub fn grad(&self, x: &[f64]) -> (Vec<f64>, Vec<f64>) {
+            let n = x.len();
+            let mut g = vec![0.0; n];
+            let mut sc = vec![0.0; n];
+            let mut add = |i: usize, v: f64| {
+                g[i] += v;
+                sc[i] += v.abs();
+            };
+            match self.kind {
+                Kind::Quad => {
+                    let (a, b) = (&self.data[0], &self.data[1]);
+                    for i in 0..n {
+                        for j in 0..n {
+                            add(i, a[i * n + j] * x[j]);
+                        }
+                        add(i, -b[i]);
+                    }
+                }
+                Kind::Rosen => {
+                    let (a, b) = (self.data[0][0], self.data[0][1]);
+                    for i in 0..n - 1 {
+                        let w = x[i + 1] - x[i] * x[i];
+                        add(i, -2.0 * (a - x[i]));
+                        add(i, -4.0 * b * x[i] * w);
+                        add(i + 1, 2.0 * b * w);
+                    }
+                }
+                Kind::LsExp => {
+                    let (t, y) = (&self.data[0], &self.data[1]);
+                    let c = 2.0 / t.len() as f64;
+                    for k in 0..t.len() {
+                        let e = (x[1] * t[k]).exp();
+                        let m = x[0] * e + if n > 2 { x[2] } else { 0.0 };
+                        let r = m - y[k];
+                        add(0, c * r * e);
+                        add(1, c * r * x[0] * t[k] * e);
+                        if n > 2 {
+                            add(2, c * r);
+                        }
+                    }
+                }
+                Kind::LsSin => {
+                    let (t, y) = (&self.data[0], &self.data[1]);
+                    let c = 2.0 / t.len() as f64;
+                    for k in 0..t.len() {
+                        let u = x[1] * t[k] + x[2];
+                        let r = x[0] * u.sin() - y[k];
+                        add(0, c * r * u.sin());
+                        add(1, c * r * x[0] * t[k] * u.cos());
+                        add(2, c * r * x[0] * u.cos());
+                    }
+                }
+                Kind::LsRat => {
+                    let (t, y) = (&self.data[0], &self.data[1]);
+                    let c = 2.0 / t.len() as f64;
+                    for k in 0..t.len() {
+                        let den = 1.0 + (x[2] * t[k]) * (x[2] * t[k]);
+                        let num = x[0] + x[1] * t[k];
+                        let r = num / den - y[k];
+                        add(0, c * r / den);
+                        add(1, c * r * t[k] / den);
+                        add(2, -c * r * num * 2.0 * x[2] * t[k] * t[k] / (den * den));
+                    }
+                }
+            }
+            (g, sc)
+        }
+    }
+
+    fn random_orthogonal(rng: &mut Rng, n: usize) -> Vec<f64> {
+        let mut q = vec![0.0; n * n];
+        for i in 0..n {
+            loop {
+                let mut v: Vec<f64> = rng.normals(n);
+                for r in 0..i {
+                    let d: f64 = (0..n).map(|k| v[k] * q[r * n + k]).sum();
+                    for k in 0..n {
+                        v[k] -= d * q[r * n + k];
+                    }
+                }
+                let nr = v.iter().map(|a| a * a).sum::<f64>().sqrt();
+                if nr > 1e-3 {
+                    for k in 0..n {
+                        q[i * n + k] = v[k] / nr;
+                    }
+                    break;
+                }
+            }
+        }
+        q
+    }
+
+    pub fn quadratic(rng: &mut Rng, convex: bool) -> (Problem, Vec<f64>) {
+        let n = rng.usize(1, 8);
+        let q = random_orthogonal(rng, n);
+        let mut lam: Vec<f64> = (0..n).map(|_| rng.log_range(0.05, 4.0)).collect();
+        if !convex {
+            let neg = rng.usize(1, n.div_ceil(2));
+            for l in lam.iter_mut().take(neg) {
+                *l = -rng.log_range(0.05, 1.0);
+            }
+        }
+        let mut a = vec![0.0; n * n];
+        for i in 0..n {
+            for j in 0..=i {
+                let s: f64 = (0..n).map(|k| q[k * n + i] * lam[k] * q[k * n + j]).sum();
+                a[i * n + j] = s;
+                a[j * n + i] = s;
+            }
+        }
+        let xs: Vec<f64> = rng.vec(n, -3.0, 3.0);
+        let b: Vec<f64> = (0..n).map(|i| (0..n).map(|j| a[i * n + j] * xs[j]).sum()).collect();
+        let x0: Vec<f64> = xs.iter().map(|v| v + rng.range(-2.0, 2.0)).collect();
+        (Problem { kind: Kind::Quad, label: if convex { "quad-convex" } else { "quad-nonconvex" }, data: vec![a, b], dim: n }, x0)
+    }
+    pub fn rosenbrock(rng: &mut Rng) -> (Problem, Vec<f64>) {
+        let n = *rng.choose(&[2usize, 2, 2, 3, 4]);
+        let b = *rng.choose(&[100.0, 100.0, 10.0, 1.0]);
+        let x0: Vec<f64> = match rng.usize(0, 3) {
+            0 => vec![0.0; n],
+            1 => (0..n).map(|i| if i % 2 == 0 { -1.2 } else { 1.0 }).collect(),
+            _ => rng.vec(n, -1.5, 1.5),
+        };
+        (Problem { kind: Kind::Rosen, label: "rosenbrock", data: vec![vec![1.0, b]], dim: n }, x0)
+    }
+    pub fn least_squares(rng: &mut Rng, which: usize) -> (Problem, Vec<f64>) {
+        let m = rng.usize(5, 30);
+        match which {
+            0 => {
+                let dim = if rng.bool() { 2 } else { 3 };
+                let t: Vec<f64> = (0..m).map(|_| rng.range(0.0, 1.0)).collect();
+                let tr = [rng.range(0.5, 2.0), rng.range(-2.0, 1.0), rng.range(-1.0, 1.0)];
+                let y: Vec<f64> = t.iter().map(|&t| tr[0] * (tr[1] * t).exp() + if dim > 2 { tr[2] } else { 0.0 } + 0.05 * rng.normal()).collect();
+                let x0: Vec<f64> = (0..dim).map(|i| tr[i] + rng.range(-0.7, 0.7)).collect();
+                (Problem { kind: Kind::LsExp, label: "ls-exp", data: vec![t, y], dim }, x0)
+            }
+            1 => {
+                let t: Vec<f64> = (0..m).map(|_| rng.range(0.0, 3.0)).collect();
+                let tr = [rng.range(0.5, 2.0), rng.range(1.0, 3.0), rng.range(-1.0, 1.0)];
+                let y: Vec<f64> = t.iter().map(|&t| tr[0] * (tr[1] * t + tr[2]).sin() + 0.05 * rng.normal()).collect();
+                let x0: Vec<f64> = (0..3).map(|i| tr[i] + rng.range(-0.5, 0.5)).collect();
+                (Problem { kind: Kind::LsSin, label: "ls-sin", data: vec![t, y], dim: 3 }, x0)
+            }
+            _ => {
+                let t: Vec<f64> = (0..m).map(|_| rng.range(-2.0, 2.0)).collect();
+                let tr = [rng.range(-1.0, 2.0), rng.range(-1.0, 1.0), rng.range(0.3, 2.0)];
+                let y: Vec<f64> = t.iter().map(|&t| (tr[0] + tr[1] * t) / (1.0 + (tr[2] * t).powi(2)) + 0.05 * rng.normal()).collect();
+                let x0: Vec<f64> = (0..3).map(|i| tr[i] + rng.range(-0.5, 0.5)).collect();
+                (Problem { kind: Kind::LsRat, label: "ls-rational", data: vec![t, y], dim: 3 }, x0)
+            }
+        }
+    }
+}
+use obj::Problem;
+
+// ---------------------------------------------------------------------------------------------
+// reference recurrences
+
+#[derive(Clone, Copy, Debug)]
+enum Opt {
+    Adam { lr: f64, b1: f64, b2: f64, eps: f64 },
+    Sgd { lr: f64, mom: f64, nesterov: bool },
+}
+
+impl Opt {
+    fn name(&self) -> &'static str {
+        match self {
+            Opt::Adam { .. } => "adam",
+            Opt::Sgd { mom, nesterov, .. } => {
+                if *nesterov {
+                    "nesterov"
+                } else if *mom != 0.0 {
+                    "momentum"
+                } else {
+                    "sgd"
+                }
+            }
+        }
+    }
+    fn site(&self) -> Site {
+        match self {
+            Opt::Adam { .. } => Site::AdamStep,
+            Opt::Sgd { .. } => Site::SgdStep,
+        }
+    }
+    fn json(&self) -> Value {
+        match *self {
+            Opt::Adam { lr, b1, b2, eps } => json!({"optimizer": "Adam", "stepsize": lr, "beta1": b1, "beta2": b2, "epsilon": eps}),
+            Opt::Sgd { lr, mom, nesterov } => json!({"optimizer": "SGD", "stepsize": lr, "momentum": mom, "nesterov": nesterov}),
+        }
+    }
+}
+
+enum LibOpt {
+    A(Adam),
+    S(SGD),
+}
+impl LibOpt {
+    fn new(o: &Opt) -> LibOpt {
+        match *o {
+            Opt::Adam { lr, b1, b2, eps } => LibOpt::A(Adam::new(lr, b1, b2, eps)),
+            Opt::Sgd { lr, mom, nesterov } => LibOpt::S(SGD::new(lr, mom, nesterov)),
+        }
+    }
+    fn call(&self, pr: &Problem, x0: &[f64], k: usize) -> Vec<f64> {
+        match self {
+            LibOpt::A(a) => pr.call(a, x0, k),
+            LibOpt::S(s) => pr.call(s, x0, k),
+        }
+    }
+}
+
+/// Iterates 0..=k of the published recurrence. With `pert`, every evaluation point, gradient
+/// component and updated parameter is perturbed by 4ε (random sign): the calibration run.
+fn reference(pr: &Problem, o: &Opt, x0: &[f64], k: usize, mut pert: Option<&mut Rng>) -> Vec<Vec<f64>> {
+    let n = x0.len();
+    let mut x = x0.to_vec();
+    let mut out = Vec::with_capacity(k + 1);
+    out.push(x.clone());
+    let mut m = vec![0.0; n];
+    let mut v = vec![0.0; n];
+    let mut u = vec![0.0; n];
+    let sgn = |p: &mut Option<&mut Rng>| -> f64 {
+        match p {
+            Some(r) => 4.0 * EPS * if r.bool() { 1.0 } else { -1.0 },
+            None => 0.0,
+        }
+    };
+    for t in 1..=k {
+        let mut at: Vec<f64> = match *o {
+            Opt::Sgd { mom, nesterov: true, .. } => (0..n).map(|i| x[i] - mom * u[i]).collect(),
+            _ => x.clone(),
+        };
+        if pert.is_some() {
+            for a in at.iter_mut() {
+                *a *= 1.0 + sgn(&mut pert);
+            }
+        }
+        let (mut g, sc) = pr.grad(&at);
+        if pert.is_some() {
+            for i in 0..n {
+                g[i] += sgn(&mut pert) * sc[i];
+            }
+        }
+        match *o {
+            Opt::Adam { lr, b1, b2, eps } => {
+                for p in 0..n {
+                    m[p] = b1 * m[p] + (1. - b1) * g[p];
+                    v[p] = b2 * v[p] + (1. - b2) * g[p] * g[p];
+                    let mhat = m[p] / (1. - b1.powi(t as i32));
+                    let vhat = v[p] / (1. - b2.powi(t as i32));
+                    x[p] = x[p] - lr * mhat / (vhat.sqrt() + eps);
+                }
+            }
+            Opt::Sgd { lr, mom, .. } => {
+                for p in 0..n {
+                    u[p] = mom * u[p] + lr * g[p];
+                    x[p] = x[p] - u[p];
+                }
+            }
+        }
+        if pert.is_some() {
+            for a in x.iter_mut() {
+                *a *= 1.0 + sgn(&mut pert);
+            }
+        }
+        out.push(x.clone());
+    }
+    out
+}
+
+fn inf_norm(x: &[f64]) -> f64 {
+    x.iter().fold(0.0f64, |m, v| if v.is_nan() { f64::INFINITY } else { m.max(v.abs()) })
+}
+
+/// distance in units in the last place between two magnitudes
+fn ulp_dist_abs(a: f64, b: f64) -> u64 {
+    if !a.is_finite() || !b.is_finite() {
+        return if a.to_bits() == b.to_bits() { 0 } else { u64::MAX };
+    }
+    let (x, y) = (a.abs().to_bits(), b.abs().to_bits());
+    x.abs_diff(y)
+}
+
+struct CaseSpec<'a> {
+    pr: &'a Problem,
+    opt: Opt,
+    x0: Vec<f64>,
+    kmax: usize,
+    /// budgets to call (ascending, contains every value 0..=min(kmax, dense))
+    budgets: Vec<usize>,
+    regime: String,
+    /// regime used for the early-stop assertions (directed cases name the mechanism)
+    stop_regime: String,
+}
+
+/// Trajectory reconstruction and all Adam/SGD assertions for one case.
+fn monitor_case(rep: &mut Report, cs: &CaseSpec, rng: &mut Rng) {
+    let (pr, o, x0) = (cs.pr, &cs.opt, &cs.x0);
+    let regime = cs.regime.as_str();
+    let n = x0.len();
+    rep.case(regime);
+    rep.distinct(Hasher::new().s(regime).s(&o.json().to_string()).fs(x0).u(pr.dim as u64).u(cs.kmax as u64).fs(&pr.data[0][..pr.data[0].len().min(8)]).finish(), true);
+    let detail0 = |extra: Value| json!({"objective": pr.label, "data": pr.data.iter().map(|d| jf(d)).collect::<Vec<_>>(), "start": jf(x0), "hyper": o.json(), "detail": extra});
+
+    // oracle self-check: hand-derived gradient vs reverse at the start point
+    let exact = reference(pr, o, x0, cs.kmax, None);
+    for probe in [0usize, cs.kmax / 2] {
+        let at = &exact[probe];
+        if at.iter().all(|v| v.is_finite() && v.abs() < 1e6) {
+            let (g, sc) = pr.grad(at);
+            let ad = pr.ad_grad(at);
+            for i in 0..n {
+                let e = (g[i] - ad[i]).abs();
+                if !(e <= 1e-12 * sc[i] + 1e-300) && g[i].is_finite() && ad[i].is_finite() {
+                    rep.inconclusive(format!("analytic gradient of {} disagrees with reverse: {} vs {} at {:?}", pr.label, g[i], ad[i], at));
+                    return;
+                }
+                if sc[i] > 0.0 {
+                    rep.note_max("worst_ratio.gradient_crosscheck(1e-12*scale)", e / (1e-12 * sc[i]));
+                }
+            }
+        }
+    }
+    let perturbed = reference(pr, o, x0, cs.kmax, Some(rng));
+    let mut tol = Vec::with_capacity(cs.kmax + 1);
+    let mut comparable = Vec::with_capacity(cs.kmax + 1);
+    let mut run = 0.0f64;
+    let mut dead = false;
+    for k in 0..=cs.kmax {
+        let mut d = 0.0f64;
+        for i in 0..n {
+            let e = (exact[k][i] - perturbed[k][i]).abs();
+            d = if e.is_nan() { f64::INFINITY } else { d.max(e) };
+        }
+        run = run.max(d);
+        let xn = inf_norm(&exact[k]);
+        if !xn.is_finite() || xn > 1e150 {
+            dead = true; // overflowed: nothing after this point is compared
+        }
+        let t = 1e3 * run + 1e-13 * (1.0 + xn);
+        tol.push(t);
+        comparable.push(!dead && t <= 1e-6 * (1.0 + xn));
+    }
+
+    let lib = LibOpt::new(o);
+    let site = o.site();
+    // traj[j] = library result of a call that executed exactly j steps with budget j
+    let mut traj: Vec<Option<Vec<f64>>> = vec![None; cs.kmax + 1];
+    let mut stop_at: Option<usize> = None;
+    let mut low_power = 0u64;
+    let mut worst = 0.0f64;
+    for &k in &cs.budgets {
+        let c0 = count(site);
+        let r = guard(|| lib.call(pr, x0, k));
+        let j = (count(site) - c0) as usize;
+        rep.note_add("calls.optimize(adam,sgd)", 1.0);
+        let got = match r {
+            Ok(v) => {
+                rep.check("C10.optimize.no_panic", regime, true, || json!(null));
+                v
+            }
+            Err(msg) => {
+                rep.check("C10.optimize.no_panic", regime, false, || detail0(json!({"maxsteps": k, "panic": msg})));
+                return;
+            }
+        };
+        if !rep.check("C10.optimize.shape", regime, got.len() == n && j <= k, || detail0(json!({"maxsteps": k, "steps_executed": j, "returned_len": got.len()}))) {
+            return;
+        }
+        // the j-th iterate of the published recurrence
+        if comparable[j] {
+            let mut w = 0.0f64;
+            let mut ident = true;
+            for i in 0..n {
+                let e = (got[i] - exact[j][i]).abs();
+                if got[i].to_bits() != exact[j][i].to_bits() {
+                    ident = false;
+                }
+                let r = if e.is_nan() { f64::INFINITY } else { e / tol[j] };
+                w = w.max(r);
+                let rel = e / (1.0 + exact[j][i].abs());
+                if rel.is_finite() {
+                    rep.note_max("worst.rel_diff_library_vs_reference", rel);
+                }
+            }
+            worst = worst.max(w);
+            rep.note_add("iterates.compared", 1.0);
+            if ident {
+                rep.note_add("iterates.bit_identical", 1.0);
+            }
+            rep.check("C10.iterate.matches_reference", regime, w <= 1.0, || detail0(json!({"maxsteps": k, "steps_executed": j, "observed": jf(&got), "expected": jf(&exact[j]), "tolerance": tol[j]})));
+        } else {
+            low_power += 1;
+        }
+        if j == k {
+            if traj[j].is_none() {
+                traj[j] = Some(got.clone());
+            }
+        } else {
+            // early stop
+            rep.seen(&format!("early-stop:{}", o.name()), 1);
+            let sreg = cs.stop_regime.as_str();
+            match stop_at {
+                None => stop_at = Some(j),
+                Some(s) => {
+                    rep.check("C10.early_stop.consistent", sreg, s == j, || detail0(json!({"maxsteps": k, "steps_executed": j, "earlier_stop_at": s})));
+                }
+            }
+            if j >= 1 {
+                // sparse budgets: reconstruct the library's iterates j-1 and j on the spot
+                for jj in [j - 1, j] {
+                    if traj[jj].is_none() {
+                        let c0 = count(site);
+                        if let Ok(v) = guard(|| lib.call(pr, x0, jj)) {
+                            if (count(site) - c0) as usize == jj {
+                                traj[jj] = Some(v);
+                            }
+                        }
+                    }
+                }
+                if let (Some(xj), Some(xp)) = (traj[j].as_ref(), traj[j - 1].as_ref()) {
+                    rep.check("C10.early_stop.same_as_budget_j", sreg, same_bits_slice(&got, xj), || detail0(json!({"maxsteps": k, "steps_executed": j, "observed": jf(&got), "result_with_maxsteps_j": jf(xj)})));
+                    let mut mag_ok = true;
+                    let mut sign_ok = true;
+                    let mut wd = 0u64;
+                    for i in 0..n {
+                        let d = ulp_dist_abs(xj[i], xp[i]);
+                        wd = wd.max(d);
+                        if d > 4 {
+                            mag_ok = false;
+                        } else if xj[i] != 0.0 && xp[i] != 0.0 && (xj[i] > 0.0) != (xp[i] > 0.0) {
+                            sign_ok = false;
+                        }
+                    }
+                    if mag_ok {
+                        rep.note_max("worst.early_stop_ulps", wd as f64);
+                    }
+                    let d = || detail0(json!({"maxsteps": k, "steps_executed": j, "library_iterate_j": jf(xj), "library_iterate_j_minus_1": jf(xp), "reference_iterate_j_plus_1": jf(&exact[(j + 1).min(cs.kmax)]), "returned": jf(&got)}));
+                    rep.check("C10.early_stop.magnitude", sreg, mag_ok, d);
+                    rep.check("C10.early_stop.sign", sreg, sign_ok, d);
+                } else {
+                    // calls with maxsteps j / j-1 did not execute j / j-1 steps: contradiction
+                    rep.check("C10.early_stop.consistent", sreg, false, || detail0(json!({"maxsteps": k, "steps_executed": j, "what": "calls with maxsteps j and j-1 executed fewer steps"})));
+                }
+            }
+        }
+    }
+    rep.note_max("worst_ratio.iterate_vs_tolerance", worst);
+    if low_power > 0 {
+        rep.seen(&format!("{}:low-power", regime), low_power);
+    }
+    // determinism: repeated call on the reused object, and a fresh object
+    let mut ks = vec![cs.kmax, cs.kmax / 2 + 1, rng.usize(1, cs.kmax)];
+    ks.dedup();
+    for k in ks {
+        let a = guard(|| lib.call(pr, x0, k));
+        let b = guard(|| lib.call(pr, x0, k));
+        let fresh = LibOpt::new(o);
+        let c = guard(|| fresh.call(pr, x0, k));
+        if let (Ok(a), Ok(b), Ok(c)) = (a, b, c) {
+            rep.check("C10.deterministic.repeat", regime, same_bits_slice(&a, &b), || detail0(json!({"maxsteps": k, "first": jf(&a), "second": jf(&b)})));
+            rep.check("C10.deterministic.fresh_vs_reused", regime, same_bits_slice(&a, &c), || detail0(json!({"maxsteps": k, "reused": jf(&a), "fresh": jf(&c)})));
+        }
+    }
+    rep.sample(|| json!({"regime": regime, "hyper": o.json(), "start": jf(x0), "kmax": cs.kmax, "stopped_early_at": stop_at, "final": jf(&exact[cs.kmax]), "worst_ratio": worst}));
+}
+
+fn random_opt(rng: &mut Rng, which: usize, rosen: bool) -> Opt {
+    let lr = if rosen && which != 0 && rng.chance(0.8) { rng.log_range(1e-4, 2e-3) } else { rng.log_range(1e-4, 0.5) };
+    match which {
+        0 => {
+            let b1 = if rng.chance(0.4) { 0.9 } else { rng.range(0.01, 0.99) };
+            let b2 = if rng.chance(0.4) { 0.999 } else { rng.range(0.01, 0.9999) };
+            Opt::Adam { lr, b1, b2, eps: 1e-8 }
+        }
+        1 => Opt::Sgd { lr, mom: 0.0, nesterov: false },
+        2 => Opt::Sgd { lr, mom: if rng.chance(0.3) { 0.9 } else { rng.range(0.0, 0.99) }, nesterov: false },
+        _ => Opt::Sgd { lr, mom: if rng.chance(0.3) { 0.9 } else { rng.range(0.0, 0.99) }, nesterov: true },
+    }
+}
+
+fn budgets(kmax: usize, dense: usize, extra: usize, rng: &mut Rng) -> Vec<usize> {
+    let mut b: Vec<usize> = (0..=kmax.min(dense)).collect();
+    if kmax > dense {
+        let mut more: Vec<usize> = (0..extra).map(|_| rng.usize(dense + 1, kmax)).collect();
+        more.push(kmax);
+        more.sort();
+        more.dedup();
+        // keep j and j-1 reconstructable around every sparse budget
+        for m in more {
+            if m - 1 > *b.last().unwrap() {
+                b.push(m - 1);
+            }
+            if m > *b.last().unwrap() {
+                b.push(m);
+            }
+        }
+    }
+    b
+}
+
+// ---------------------------------------------------------------------------------------------
+// Levenberg–Marquardt
+
+mod lm {
+    use super::*;
+
+    #[derive(Clone, Copy, PartialEq, Debug)]
+    pub enum Model {
+        Poly,
+        Trig,
+        Exp,
+        Logistic,
+    }
+
+    pub fn m_poly<'a>(p: &[Var<'a>], d: &[&[f64]]) -> Var<'a> {
+        let x = d[0][0];
+        p.iter().enumerate().map(|(i, &v)| v * x.powi(i as i32)).sum()
+    }
+    pub fn trig_basis(x: f64, i: usize) -> f64 {
+        match i {
+            0 => 1.0,
+            1 => x.sin(),
+            2 => x.cos(),
+            3 => (2.0 * x).sin(),
+            _ => (2.0 * x).cos(),
+        }
+    }
+    pub fn m_trig<'a>(p: &[Var<'a>], d: &[&[f64]]) -> Var<'a> {
+        let x = d[0][0];
+        p.iter().enumerate().map(|(i, &v)| v * trig_basis(x, i)).sum()
+    }
+    pub fn m_exp<'a>(p: &[Var<'a>], d: &[&[f64]]) -> Var<'a> {
+        let x = d[0][0];
+        let m = p[0] * (p[1] * x).exp();
+        if p.len() > 2 {
+            m + p[2]
+        } else {
+            m
+        }
+    }
+    pub fn m_logistic<'a>(p: &[Var<'a>], d: &[&[f64]]) -> Var<'a> {
+        let x = d[0][0];
+        p[0] / ((p[1] * (x - p[2]) * -1.0).exp() + 1.0)
+    }
+
+    pub struct Fit {
+        pub model: Model,
+        pub xs: Vec<f64>,
+        pub ys: Vec<f64>,
+        pub start: Vec<f64>,
+    }
+
+    impl Fit {
+        pub fn label(&self) -> &'static str {
+            match self.model {
+                Model::Poly => "lm:linear-poly",
+                Model::Trig => "lm:linear-trig",
+                Model::Exp => "lm:exp",
+                Model::Logistic => "lm:logistic",
+            }
+        }
+        pub fn linear(&self) -> bool {
+            matches!(self.model, Model::Poly | Model::Trig)
+        }
+        pub fn call(&self, o: &LM, k: usize) -> (Vec<f64>, Vec<f64>, usize, usize) {
+            let d: [&[f64]; 2] = [&self.xs, &self.ys];
+            let (p, c) = match self.model {
+                Model::Poly => o.optimize(m_poly, &self.start, &d, k),
+                Model::Trig => o.optimize(m_trig, &self.start, &d, k),
+                Model::Exp => o.optimize(m_exp, &self.start, &d, k),
+                Model::Logistic => o.optimize(m_logistic, &self.start, &d, k),
+            };
+            (p.v, c.data.v.clone(), c.nrows, c.ncols)
+        }
+        pub fn value(&self, p: &[f64], x: f64) -> f64 {
+            match self.model {
+                Model::Poly => p.iter().enumerate().map(|(i, v)| v * x.powi(i as i32)).sum(),
+                Model::Trig => p.iter().enumerate().map(|(i, v)| v * trig_basis(x, i)).sum(),
+                Model::Exp => p[0] * (p[1] * x).exp() + if p.len() > 2 { p[2] } else { 0.0 },
+                Model::Logistic => p[0] / (1.0 + (-(p[1] * (x - p[2]))).exp()),
+            }
+        }
+        pub fn jac_row(&self, p: &[f64], x: f64) -> Vec<f64> {
+            match self.model {
+                Model::Poly => (0..p.len()).map(|i| x.powi(i as i32)).collect(),
+                Model::Trig => (0..p.len()).map(|i| trig_basis(x, i)).collect(),
+                Model::Exp => {
+                    let e = (p[1] * x).exp();
+                    let mut r = vec![e, p[0] * x * e];
+                    if p.len() > 2 {
+                        r.push(1.0);
+                    }
+                    r
+                }
+                Model::Logistic => {
+                    let s = 1.0 / (1.0 + (-(p[1] * (x - p[2]))).exp());
+                    vec![s, p[0] * s * (1.0 - s) * (x - p[2]), -p[0] * s * (1.0 - s) * p[1]]
+                }
+            }
+        }
+        pub fn rss(&self, p: &[f64]) -> f64 {
+            let mut s = Dd::ZERO;
+            for (x, y) in self.xs.iter().zip(&self.ys) {
+                let r = y - self.value(p, *x);
+                s = s + Dd::prod(r, r);
+            }
+            s.f()
+        }
+        pub fn jacobian(&self, p: &[f64]) -> Vec<f64> {
+            self.xs.iter().flat_map(|&x| self.jac_row(p, x)).collect()
+        }
+    }
+
+    pub fn random_fit(rng: &mut Rng, model: Model) -> Fit {
+        let np = match model {
+            Model::Poly | Model::Trig => rng.usize(1, 5),
+            Model::Exp => rng.usize(2, 3),
+            Model::Logistic => 3,
+        };
+        let n = (rng.log_range(5.0, 200.0).round() as usize).max(np + 2);
+        let (lo, hi) = match model {
+            Model::Poly => *rng.choose(&[(-1.0, 1.0), (-1.0, 1.0), (0.0, 1.0), (0.0, 3.0), (-2.0, 5.0)]),
+            Model::Trig => *rng.choose(&[(0.0, 6.3), (-3.0, 3.0), (0.0, 2.0)]),
+            Model::Exp => (0.0, rng.range(1.0, 3.0)),
+            Model::Logistic => (-4.0, 4.0),
+        };
+        let mut xs: Vec<f64> = (0..n).map(|_| rng.range(lo, hi)).collect();
+        xs.sort_by(|a, b| a.partial_cmp(b).unwrap());
+        let truth: Vec<f64> = match model {
+            Model::Poly | Model::Trig => rng.vec(np, -3.0, 3.0),
+            Model::Exp => {
+                let mut t = vec![rng.range(0.5, 3.0) * if rng.bool() { 1.0 } else { -1.0 }, rng.range(-1.5, 1.0)];
+                if np > 2 {
+                    t.push(rng.range(-2.0, 2.0));
+                }
+                t
+            }
+            Model::Logistic => vec![rng.range(1.0, 5.0), rng.range(0.5, 3.0), rng.range(-1.5, 1.5)],
+        };
+        let noise = rng.log_range(1e-3, 0.3);
+        let mut f = Fit { model, xs, ys: vec![], start: vec![] };
+        f.ys = f.xs.iter().map(|&x| f.value(&truth, x) + noise * rng.normal()).collect();
+        // poor starts
+        f.start = match model {
+            Model::Poly | Model::Trig => rng.vec(np, -10.0, 10.0),
+            Model::Exp => {
+                let mut s = vec![truth[0] * rng.log_range(0.2, 5.0), truth[1] + rng.range(-1.0, 1.0)];
+                if np > 2 {
+                    s.push(truth[2] + rng.range(-3.0, 3.0));
+                }
+                s
+            }
+            Model::Logistic => vec![truth[0] * rng.log_range(0.3, 3.0), truth[1] * rng.log_range(0.3, 3.0), truth[2] + rng.range(-2.0, 2.0)],
+        };
+        f
+    }
+
+    fn detail(f: &Fit, o: (f64, f64, f64), extra: Value) -> Value {
+        json!({"model": format!("{:?}", f.model), "x": jf(&f.xs), "y": jf(&f.ys), "start": jf(&f.start), "LM": {"eps1": o.0, "eps2": o.1, "tau": o.2}, "detail": extra})
+    }
+
+    pub fn monitor(cfg: &Cfg, rep: &mut Report, f: &Fit, rng: &mut Rng, all_budgets: bool) {
+        let regime = f.label();
+        rep.case(regime);
+        let np = f.start.len();
+        let n = f.xs.len();
+        rep.distinct(Hasher::new().s(regime).u(n as u64).fs(&f.start).fs(&f.xs[..n.min(8)]).fs(&f.ys[..n.min(8)]).finish(), true);
+        let rss0 = f.rss(&f.start);
+        if !rss0.is_finite() {
+            rep.seen("lm:skipped(start RSS not finite)", 1);
+            return;
+        }
+        let tau = *rng.choose(&[1e-2, 1e-2, 1e-3, 1e-6, 1.0]);
+        // tight tolerances make every call run to its budget (cost ∝ n² per step): small problems only
+        let (e1, e2) = if rng.chance(0.7) || n > 40 { (1e-6, 1e-6) } else { (1e-14, 1e-14) };
+        let o = LM::new(e1, e2, tau);
+        let oo = (e1, e2, tau);
+        // RSS never above the start, for every step budget
+        let kmax = 200;
+        let ks: Vec<usize> = if all_budgets {
+            (0..=kmax).collect()
+        } else {
+            // one LM step costs ~10µs·(n/10)^1.7 (a single tape holds all n points): fewer budgets for long series
+            let (pre, extra) = if n > 100 { (8, 4) } else { (12, 10) };
+            let mut v: Vec<usize> = (0..=pre).collect();
+            v.extend((0..extra).map(|_| rng.usize(pre + 1, kmax)));
+            v.push(kmax);
+            v.sort();
+            v.dedup();
+            v
+        };
+        let mut last: Option<(Vec<f64>, Vec<f64>)> = None;
+        for &k in &ks {
+            let s0 = count(Site::LmStep);
+            let r = guard(|| f.call(&o, k));
+            let steps = count(Site::LmStep) - s0;
+            rep.note_add("calls.optimize(lm)", 1.0);
+            match r {
+                Err(msg) => {
+                    rep.check("C10.lm.no_panic", regime, false, || detail(f, oo, json!({"maxsteps": k, "panic": msg})));
+                    return;
+                }
+                Ok((p, cov, r_, c_)) => {
+                    rep.check("C10.lm.no_panic", regime, true, || json!(null));
+                    let shape_ok = p.len() == np && r_ == np && c_ == np && cov.len() == np * np && steps as usize <= k;
+                    if !rep.check("C10.lm.shape", regime, shape_ok, || detail(f, oo, json!({"maxsteps": k, "params": jf(&p), "cov_shape": [r_, c_], "steps": steps}))) {
+                        return;
+                    }
+                    let rss = f.rss(&p);
+                    let ok = rss <= rss0 * (1.0 + 1e-12);
+                    if rss0 > 0.0 && rss.is_finite() {
+                        rep.note_max("worst_ratio.lm_rss_returned_over_start", rss / rss0);
+                    }
+                    rep.check("C10.lm.rss_not_increased", regime, ok, || detail(f, oo, json!({"maxsteps": k, "returned": jf(&p), "rss_start": jnum(rss0), "rss_returned": jnum(rss)})));
+                    if k == 0 {
+                        rep.check("C10.lm.budget0_returns_start", regime, same_bits_slice(&p, &f.start), || detail(f, oo, json!({"returned": jf(&p)})));
+                    }
+                    if k == 0 || k == kmax || k == ks[ks.len() / 2] {
+                        check_cov(rep, regime, f, oo, k, &p, &cov);
+                    }
+                    if k == kmax {
+                        last = Some((p, cov));
+                    }
+                }
+            }
+        }
+        // determinism on the reused object
+        if let Some((p, cov)) = &last {
+            if let Ok((p2, cov2, _, _)) = guard(|| f.call(&o, kmax)) {
+                rep.check("C10.deterministic.lm", regime, same_bits_slice(p, &p2) && same_bits_slice(cov, &cov2), || detail(f, oo, json!({"first": jf(p), "second": jf(&p2)})));
+            }
+        }
+        if f.linear() {
+            reach_ls(cfg, rep, f, rng);
+        }
+    }
+
+    fn check_cov(rep: &mut Report, regime: &str, f: &Fit, oo: (f64, f64, f64), k: usize, p: &[f64], cov: &[f64]) {
+        let np = p.len();
+        let n = f.xs.len();
+        let j = f.jacobian(p);
+        if j.iter().any(|v| !v.is_finite()) {
+            return;
+        }
+        let jt = linref::transpose(&j, n, np);
+        let jtj = linref::matmul(&jt, &j, np, n, np);
+        let Some(inv) = linref::inverse(&jtj, np) else { return };
+        let kappa = linref::inf_norm(&jtj, np, np) * linref::inf_norm(&inv, np, np);
+        let tol = 1000.0 * (n + np) as f64 * EPS * kappa;
+        if !(tol <= 1e-3) {
+            rep.seen("lm:cov:low-power(kappa)", 1);
+            return;
+        }
+        let s2 = f.rss(p) / (n - np) as f64;
+        let scale = s2 * linref::max_abs(&inv);
+        let mut w = 0.0f64;
+        for i in 0..np * np {
+            let e = (cov[i] - s2 * inv[i]).abs();
+            w = if e.is_nan() { f64::INFINITY } else { w.max(e) };
+        }
+        let ratio = if scale > 0.0 { w / (tol * scale) } else if w == 0.0 { 0.0 } else { f64::INFINITY };
+        rep.note_max("worst_ratio.lm_covariance_vs_bound", ratio);
+        rep.check("C10.lm.covariance", regime, ratio <= 1.0, || {
+            detail(f, oo, json!({"maxsteps": k, "returned": jf(p), "covariance": jf(cov), "expected": jf(&inv.iter().map(|v| s2 * v).collect::<Vec<_>>()), "relative_tolerance": tol, "kappa_JtJ": jnum(kappa)}))
+        });
+    }
+
+    /// Linear models: the least-squares solution must be reached with `LM::new(1e-14, 1e-14, τ)`.
+    ///
+    /// Budget: on a linear model every textbook damping rule (Marquardt ×/÷, Nielsen) shrinks μ
+    /// geometrically after each successful step, so a few dozen steps suffice; 200 (quick) /
+    /// 2000 (thorough) is generous. A rule whose damping never falls below a constant c (relative
+    /// to diag JᵀJ) only contracts the error by c/(λ+c) per step, λ ≥ λ_min of the correlation
+    /// form D^-½ JᵀJ D^-½; with c = 1/3 and λ_min ≥ 0.05 that still reaches 1e-7 within 200
+    /// steps, so the two conditioning classes are separate regimes: the first must be silent for
+    /// any convergent LM, the second separates "damping decreases" from "damping has a floor".
+    fn reach_ls(cfg: &Cfg, rep: &mut Report, f: &Fit, rng: &mut Rng) {
+        let np = f.start.len();
+        let n = f.xs.len();
+        let j = f.jacobian(&f.start);
+        let pen = vec![0.0; np];
+        let Some(pls) = linref::ridge_ls(&j, &f.ys, None, &pen, n, np) else { return };
+        let jt = linref::transpose(&j, n, np);
+        let jtj = linref::matmul(&jt, &j, np, n, np);
+        let kappa = linref::cond_inf(&jtj, np);
+        if !(kappa * EPS * 1e3 <= 1e-8) {
+            rep.seen("lm-linear:skipped(kappa(JtJ) > 4e4: normal equations cannot deliver 1e-7)", 1);
+            return;
+        }
+        let mut c = jtj.clone();
+        for a in 0..np {
+            for b in 0..np {
+                c[a * np + b] = jtj[a * np + b] / (jtj[a * np + a].sqrt() * jtj[b * np + b].sqrt());
+            }
+        }
+        let lmin = linref::jacobi_eigenvalues(&c, np)[0];
+        let lmin_jtj = linref::jacobi_eigenvalues(&jtj, np)[0].max(f64::MIN_POSITIVE);
+        let regime = if lmin >= 0.05 { "lm-linear:corr-lmin>=0.05" } else { "lm-linear:corr-lmin<0.05" };
+        rep.seen(regime, 1);
+        let tau = *rng.choose(&[1e-2, 1e-3, 1e-6]);
+        let budget = if cfg.thorough() && lmin < 0.05 { 2000 } else { 200 };
+        let o = LM::new(1e-14, 1e-14, tau);
+        let a0 = count(Site::LmAccept);
+        let r0 = count(Site::LmReject);
+        match guard(|| f.call(&o, budget)) {
+            Err(msg) => {
+                rep.check("C10.lm.no_panic", regime, false, || detail(f, (1e-14, 1e-14, tau), json!({"maxsteps": budget, "panic": msg})));
+            }
+            Ok((p, _, _, _)) => {
+                let (acc, rej) = (count(Site::LmAccept) - a0, count(Site::LmReject) - r0);
+                let mut e = 0.0;
+                let mut nr = 0.0;
+                for i in 0..np {
+                    e += (p[i] - pls[i]) * (p[i] - pls[i]);
+                    nr += pls[i] * pls[i];
+                }
+                // floor: the gain-ratio test compares two sums of n squares; once the predicted
+                // reduction λ_min‖e‖² drops below their rounding noise n·ε·RSS no LM can tell progress from noise
+                let floor = 16.0 * (n as f64 * EPS * f.rss(&pls) / lmin_jtj).sqrt();
+                let tol = 1e-7 * (1.0 + nr.sqrt()) + floor;
+                let ratio = e.sqrt() / tol;
+                let ratio = if ratio.is_nan() { f64::INFINITY } else { ratio };
+                if lmin >= 0.05 {
+                    rep.note_max("worst_ratio.lm_linear_distance_to_ls(corr-lmin>=0.05)", ratio);
+                } else if ratio <= 1.0 {
+                    rep.note_max("worst_ratio.lm_linear_distance_to_ls(corr-lmin<0.05,passing)", ratio);
+                }
+                rep.check("C10.lm.reaches_least_squares", regime, ratio <= 1.0, || {
+                    detail(f, (1e-14, 1e-14, tau), json!({"maxsteps": budget, "returned": jf(&p), "least_squares": jf(&pls), "distance": e.sqrt(), "tolerance": tol,
+                        "accepted_steps": acc, "rejected_steps": rej, "lambda_min_correlation_form": lmin, "kappa_JtJ": kappa, "rss_returned": jnum(f.rss(&p)), "rss_least_squares": jnum(f.rss(&pls))}))
+                });
+            }
+        }
+    }
+}
+
+// ---------------------------------------------------------------------------------------------
+
+fn directed(rep: &mut Report, rng: &mut Rng) {
+    // (1) SGD: f = ½·4·x², stepsize ½ ⇒ x ↦ x − 2x = −x exactly. The parameters never stop changing.
+    for x0 in [vec![1.5], vec![-0.75, 0.0]] {
+        let n = x0.len();
+        let mut a = vec![0.0; n * n];
+        for i in 0..n {
+            a[i * n + i] = 4.0;
+        }
+        let pr = Problem { kind: obj::Kind::Quad, label: "quad-convex", data: vec![a, vec![0.0; n]], dim: n };
+        let cs = CaseSpec { pr: &pr, opt: Opt::Sgd { lr: 0.5, mom: 0.0, nesterov: false }, x0, kmax: 12, budgets: (0..=12).collect(), regime: "directed:sign-flip:sgd".into(), stop_regime: "sign-flip".into() };
+        monitor_case(rep, &cs, rng);
+    }
+    // (2) Adam: β1 = β2 = ½ make the first bias-corrected step exactly stepsize·sign(g) when g = 2^27
+    //     swamps ε; start = stepsize/2 ⇒ x ↦ −x.
+    {
+        let pr = Problem { kind: obj::Kind::Quad, label: "quad-convex", data: vec![vec![1073741824.0], vec![0.0]], dim: 1 };
+        let cs = CaseSpec { pr: &pr, opt: Opt::Adam { lr: 0.25, b1: 0.5, b2: 0.5, eps: 1e-8 }, x0: vec![0.125], kmax: 12, budgets: (0..=12).collect(), regime: "directed:sign-flip:adam".into(), stop_regime: "sign-flip".into() };
+        monitor_case(rep, &cs, rng);
+    }
+    // (3) a coordinate that starts at exactly 0 on a problem of tiny scale: the first step is
+    //     0 → 1e-21, an infinite relative change, and the iterates keep moving towards 1e-20.
+    {
+        let pr = Problem { kind: obj::Kind::Quad, label: "quad-convex", data: vec![vec![1.0], vec![1e-20]], dim: 1 };
+        let cs = CaseSpec { pr: &pr, opt: Opt::Sgd { lr: 0.1, mom: 0.0, nesterov: false }, x0: vec![0.0], kmax: 12, budgets: (0..=12).collect(), regime: "directed:zero-start:sgd".into(), stop_regime: "zero-start:tiny-scale".into() };
+        monitor_case(rep, &cs, rng);
+    }
+    // (4) controls that must stay silent: same quadratic, stepsize ¼ (converges in one step to 0,
+    //     then genuinely stops), and a start at the optimum.
+    {
+        let pr = Problem { kind: obj::Kind::Quad, label: "quad-convex", data: vec![vec![4.0], vec![0.0]], dim: 1 };
+        let cs = CaseSpec { pr: &pr, opt: Opt::Sgd { lr: 0.25, mom: 0.0, nesterov: false }, x0: vec![1.5], kmax: 12, budgets: (0..=12).collect(), regime: "directed:control:sgd".into(), stop_regime: "control".into() };
+        monitor_case(rep, &cs, rng);
+        let pr = Problem { kind: obj::Kind::Quad, label: "quad-convex", data: vec![vec![2.0], vec![3.0]], dim: 1 };
+        let cs = CaseSpec { pr: &pr, opt: Opt::Sgd { lr: 0.1, mom: 0.9, nesterov: true }, x0: vec![1.5], kmax: 12, budgets: (0..=12).collect(), regime: "directed:control:nesterov".into(), stop_regime: "control".into() };
+        monitor_case(rep, &cs, rng);
+    }
+}
+
+pub fn run(cfg: &Cfg, rep: &mut Report) {
+    rep.rule = "Adam/SGD: random objective (convex / non-convex quadratic in 1..8 dims with eigenvalues 0.05..4 resp. -1..4, chained Rosenbrock in 2..4 dims, mean-squared-error losses of p0*exp(p1 t)[+p2], p0*sin(p1 t+p2), (p0+p1 t)/(1+(p2 t)^2) on 5..30 points) x optimizer (Adam, plain SGD, momentum, Nesterov) x hyper-parameters (stepsize log-uniform 1e-4..0.5, beta1/beta2 in (0.01,0.9999), momentum in [0,0.99]); every maxsteps 0..K is a separate optimize call on one reused optimizer object (K = 200; thorough: 0..200 dense for all 400 cases, 12 cases dense to 2000, the others 40 random budgets k in 201..2000 each with k-1). LM: random polynomial / trigonometric (linear), exponential and logistic fits, 5..200 noisy points, 1..5 parameters, poor starts; every budget 0..200 is a separate call for n <= 12, else budgets 0..12 (0..8 for n > 100) + 10 (4) random ones + 200. non-trivial = every case (all have a non-zero gradient at the start); distinct by (regime, hyper-parameters, start, data prefix)".into();
+    rep.assume("objectives avoid `f64 / Var` nodes: reverse 0.2.2 differentiates c/x as -1/x (a defect of the autodiff dependency, not of compute); divisions are Var/Var and Var/f64");
+    rep.assume("iterates are compared while the reference is finite (< 1e150) and the self-calibrated tolerance stays below 1e-6*(1+|x|); later budgets of such a case are counted under '<regime>:low-power' and only checked for panics, shape, early-stop rule and determinism");
+    rep.assume("'stopped changing' is judged on the library's own reconstructed iterates j and j-1 (4 ulp, same sign); the library iterate j is itself tied to the reference iterate j by the iterate assertion");
+    rep.assume("LM: n >= p + 2 (s^2 = RSS/(n-p) is undefined for n = p); starts with non-finite RSS are skipped; reaching the least-squares solution is demanded only when kappa(JtJ) <= 4e4 (normal equations in double precision can deliver 1e-7) with LM::new(1e-14,1e-14,tau) and 200 steps (2000 in the thorough tier for the poorly conditioned class)");
+    let (ncase, kmax) = if cfg.lite { (cfg.pick(8, 8, 2), 20) } else if cfg.thorough() { (400, 2000) } else { (60, 200) };
+    let nlm = cfg.pick(200, 5000, 2);
+    // LM problems are generated up front (own seed per problem) so that they can be scheduled by cost
+    let fits: Vec<(u64, lm::Fit)> = (0..nlm)
+        .map(|k| {
+            let seed = case_seed(cfg.seed, 3, k as u64);
+            let mut rng = Rng::new(seed);
+            let model = match k % 5 {
+                0 | 1 => lm::Model::Poly,
+                2 => lm::Model::Trig,
+                3 => lm::Model::Exp,
+                _ => lm::Model::Logistic,
+            };
+            (seed, lm::random_fit(&mut rng, model))
+        })
+        .collect();
+    let mut lm_order: Vec<usize> = (0..nlm).collect();
+    lm_order.sort_by(|&a, &b| fits[b].1.xs.len().cmp(&fits[a].1.xs.len()).then(a.cmp(&b)));
+    // Scheduling. Adam and SGD `eprintln!` on every step, and std's stderr lock serialises them across
+    // threads (measured: 1.27M steps take 2.4 s on 1 thread, 3.1 s on 16), so all Adam/SGD cases go to
+    // worker 0 (slots ≡ 0 mod threads) while the other workers run the LM problems, longest first.
+    // Every work item derives its generator from its own index, so results do not depend on `threads`.
+    #[derive(Clone, Copy)]
+    enum Item {
+        Traj(usize),
+        Directed,
+        Lm(usize),
+        Idle,
+    }
+    let t = cfg.threads.max(1);
+    let mut traj_items: std::collections::VecDeque<Item> = (0..ncase).map(Item::Traj).collect();
+    traj_items.push_front(Item::Directed);
+    let mut lm_items: std::collections::VecDeque<Item> = lm_order.iter().map(|&k| Item::Lm(k)).collect();
+    let mut sched: Vec<Item> = Vec::new();
+    while !traj_items.is_empty() || !lm_items.is_empty() {
+        let slot0 = sched.len() % t == 0;
+        let it = if slot0 { traj_items.pop_front().or_else(|| lm_items.pop_front()) } else { lm_items.pop_front() };
+        sched.push(it.unwrap_or(Item::Idle));
+    }
+    par_cases(cfg, rep, 1, sched.len(), |pos, _rng, rep| match sched[pos] {
+        Item::Idle => {}
+        Item::Directed => {
+            let seed = case_seed(cfg.seed, 2, 0);
+            rep.case_seed = seed;
+            directed(rep, &mut Rng::new(seed));
+        }
+        Item::Traj(i) => {
+            let seed = case_seed(cfg.seed, 1, i as u64);
+            rep.case_seed = seed;
+            let rng = &mut Rng::new(seed);
+            let which_opt = i % 4;
+            let fam = (i / 4) % 6;
+            let (pr, x0) = match fam {
+                0 => obj::quadratic(rng, true),
+                1 => obj::quadratic(rng, false),
+                2 => obj::rosenbrock(rng),
+                f => obj::least_squares(rng, f - 3),
+            };
+            let o = random_opt(rng, which_opt, fam == 2);
+            let regime = format!("{}:{}", o.name(), pr.label);
+            // thorough: 0..200 dense for every case; 12 cases dense to 2000 (one per optimizer x cheap
+            // family), the others 40 random budgets k in 201..2000 together with k-1
+            let dense = if cfg.thorough() && fam <= 2 && i < 24 { kmax } else { 200.min(kmax) };
+            let b = budgets(kmax, dense, 40, rng);
+            let cs = CaseSpec { pr: &pr, opt: o, x0, kmax, budgets: b, regime: regime.clone(), stop_regime: regime };
+            monitor_case(rep, &cs, rng);
+        }
+        Item::Lm(k) => {
+            let (seed, f) = &fits[k];
+            rep.case_seed = *seed;
+            let rng = &mut Rng::new(seed ^ 0x5DEECE66D);
+            // every budget 0..200 for the small problems (n <= 12), a dense prefix + random budgets + 200 for the rest
+            let all = f.xs.len() <= 12;
+            lm::monitor(cfg, rep, f, rng, all && !cfg.lite);
+        }
+    });
+    if !cfg.lite {
+        for o in ["adam", "sgd", "momentum", "nesterov"] {
+            for l in ["quad-convex", "quad-nonconvex", "rosenbrock", "ls-exp", "ls-sin", "ls-rational"] {
+                rep.require(&format!("{}:{}", o, l), 1);
+            }
+        }
+        for l in ["lm:linear-poly", "lm:linear-trig", "lm:exp", "lm:logistic", "lm-linear:corr-lmin>=0.05", "lm-linear:corr-lmin<0.05"] {
+            rep.require(l, 1);
+        }
+        for s in ["adam.step", "sgd.step", "lm.step", "lm.accept", "lm.reject"] {
+            rep.require(s, 1);
+        }
+    }
 }
